@@ -69,6 +69,9 @@ def gen_table(variant):
         "lat": 48.1, "lon": 11.5, "h": 500.0, "lat0": 48.0, "lon0": 11.0, "h0": 400.0, "east": 120.0, "north": -40.0, "up": 7.0,
         "x0": 4.1e6, "y0": 8.3e5, "z0": 4.7e6, "z": 4.7e6, "az": 33.0, "elev": 12.0, "slant_range": 1500.0,
         "down": 100.0, "cross": -20.0, "above": 3.0, "dt": 0.01, "w1": acc, "w2": mag, "Hx": gyr, "Hy": gyr, "Hz": gyr,
+        "state": q.copy() / np.linalg.norm(q), "state_covariance": np.diag([0.0, 0.01, 0.02, 0.01]),      # singular, as UKF.update leaves its P
+        "Db": acc / np.linalg.norm(acc), "Dr": np.array([0.6, 0.0, 0.8]), "Pk_1": np.identity(4) * 0.01, "Phi": np.identity(4) + 0.01 * np.diag([0.0, 1.0, -1.0, 0.5]),
+        "Sigma_eps": np.identity(4) * 1e-6, "Sigma_v": np.identity(4) * 1e-3, "mode": "normal", "use_mag": True,
         "data": np.array([[1.0, 2.0], [np.nan, np.nan], [3.0, 4.0]]), "array": R1, "item": q, "skew": None,
         "n": 3, "order": 2, "t": 0.5, "frame": "NED", "representation": "quaternion", "method": "shepperd", "version": 1, "eta": 0.0,
         "deg": True, "degrees": False, "in_deg": variant == 1, "rad": True, "return_euler": False, "span": None, "inplace": False, "frequency": 100.0,
@@ -139,11 +142,13 @@ def synth(fn, variant, skip_first=0):
     if fname in ("Quaternion.from_angles", "Quaternion.from_rpy") and variant == 1:
         args["angles"] = np.array([3.0, -1.5, 6.0])
     if fname == "QuaternionArray.average" and "weights" in args:
-        args["weights"] = np.array([1.0, 2.0, 0.5]) * (1.0 if variant == 0 else 3.5)
+        args["weights"] = np.array([1.0, 2.0, 0.5, 1.5]) * (1.0 if variant == 0 else 3.5)
     if fname == "QuaternionArray.rotate_by":
         args["order"] = "H"      # order="S" raises AxisError for every 4-vector on the pinned tree (np.roll(q, -1, axis=1) on a 1-D q): outside the listed properties, noted in DESIGN 8.6
     if fname in ("AngularRate.update",):
         args["method"] = "closed"
+    if fname == "AngularRate.integrate_angular_positions":
+        args["gyr"] = np.array([[0.12, -0.07, 0.25], [0.1, 0.05, -0.2], [-0.3, 0.02, 0.01]]) * (1.0 if variant == 0 else 3.5)
     if fname in ("FLAE.estimate",):
         args["method"] = "eig"
     return args
@@ -169,8 +174,16 @@ def frames_args(fn, variant):
     return args
 
 
+def process_state():
+    """process-wide settings a library call has no business changing: what later calls return (or whether they raise) depends on them"""
+    import warnings
+    return (tuple((f[0], getattr(f[1], "pattern", f[1]), f[2].__name__, getattr(f[3], "pattern", f[3]), f[4]) for f in warnings.filters),
+            tuple(sorted(np.geterr().items())), tuple(sorted(np.get_printoptions().items(), key=str)) and None)
+
+
 def observe(label, call, args, t, events, state=None, other_args=None):
     """call twice with equal contents (fresh copies); log content ids of every array argument before/after"""
+    ps0 = process_state()
     def arrays_of(d):
         return [(k, v) for k, v in sorted(d.items()) if isinstance(v, np.ndarray)]
     outs = []
@@ -214,6 +227,16 @@ def observe(label, call, args, t, events, state=None, other_args=None):
                         np.asarray(x)[...] = 777
                     except Exception:  # noqa
                         pass
+    ps1 = process_state()
+    if ps1 != ps0:
+        import warnings
+        what = "warnings-filters" if ps1[0] != ps0[0] else "numpy-error-state"
+        t.fail("C19|%s|leaves-process-wide-state-changed|%s" % (label, what),
+               {"callable": label, "before": str(ps0[0][:2]) + " " + str(ps0[1]), "after": str(ps1[0][:2]) + " " + str(ps1[1]),
+                "note": "calls made later in the process (with the same arguments as before) answer differently or raise"})
+        # put it back so that the remaining callables are observed under the settings the run started with
+        warnings.filters[:] = list(PROCESS_WARNINGS)
+        np.seterr(**PROCESS_NPERR)
     if outs[0][0] == "raise" and outs[1][0] == "raise":
         return "uncovered"
     if outs[0][1] != outs[1][1]:
@@ -318,7 +341,8 @@ def catalogue():
             np.random.seed(3)
             return cls(**a)
         items.append(("%s(...)" % cname, make, cargs))
-        for mname in ("estimate", "update", "updateIMU", "updateMARG", "init_q"):
+        others = [n_ for n_, m_ in inspect.getmembers(cls, inspect.isfunction) if not n_.startswith("_") and n_ not in ("estimate", "update", "updateIMU", "updateMARG", "init_q")]
+        for mname in ["estimate", "update", "updateIMU", "updateMARG", "init_q"] + others:
             if not hasattr(cls, mname):
                 continue
             m = getattr(cls, mname)
@@ -368,7 +392,13 @@ def catalogue():
     return items
 
 
+PROCESS_WARNINGS, PROCESS_NPERR = [], {}
+
+
 def run(chk):
+    import warnings
+    PROCESS_WARNINGS[:] = list(warnings.filters)
+    PROCESS_NPERR.update(np.geterr())
     quick = chk.tier == "quick"
     res = tlc.run_tlc("MC_CallerMemory", core.spec_cfg("MC_CallerMemory" if quick else "MC_CallerMemory_thorough"), timeout=1800)
     chk.add_tlc("CallerMemory[2 buffers, 2 contents, 2 callables, memo <= %d]" % (3 if quick else 4), res)
